@@ -92,6 +92,21 @@ def run(project: Project, rep, tier: str):
                         construct=f"{f2.qualname}: {_ast.unparse(h['node'])[:100]}")
     rep.discharged("HT-DTYPE", fi_hs, fi_hs.node, f"{n_fn} function(s) of {mod} inspected: no floating-point store into an array "
                                                   f"whose dtype is inherited from the caller's data")
+    from . import intarith_rule
+    for q, f2 in sorted(project.functions.items()):
+        if not q.startswith(mod + ".") or f2.parent is not None or not isinstance(f2.node, (_ast.FunctionDef, _ast.AsyncFunctionDef)):
+            continue
+        ap_ = intarith_rule.array_params_of(project, f2)
+        hs_ = intarith_rule.analyse(project, f2)
+        if not ap_ and not hs_:
+            continue
+        for h in hs_:
+            rep.refuted("HT-DTYPE", f2, h["node"], h["why"] + ": the squared distances inside the Gaussian terms are then not those of "
+                                                              "the points given, so the value is not the kernel's",
+                        construct=f"{f2.qualname}: {_ast.unparse(h['node'])[:100]}")
+        if not hs_:
+            rep.discharged("HT-DTYPE", f2, f2.node, f"array parameters {sorted(ap_)}: no difference of two caller arrays, product, "
+                                                    f"power or sum is formed while the operands still have the caller's dtype")
     from . import narrow_rule
     for entry_ in (HEAT, KER):
         hits, st_ = narrow_rule.analyse(project, mod, entry_)
